@@ -4,6 +4,7 @@
 mod c04;
 mod c05;
 mod c06;
+mod c07;
 mod c08;
 mod c10;
 mod c11;
@@ -41,6 +42,7 @@ fn main() {
         "scenarios" => c15::run(rest),
         "datetime" => c11::run(rest),
         "validate" => c13::run(rest),
+        "total" => c07::run(rest),
         "parse1" => {
             // parse one full message (file) as type --mt and print the outcome
             let mt = util::arg(rest, "--mt").expect("--mt");
